@@ -73,7 +73,7 @@ CHECKS = {
             'decided. ' + PARTIAL % 'C15'),
     'C16': ('other', 'must-precede (dominator + data dependence) of parse_initial_status before processing in each front end; use-set rule on the opening-position map',
             'R16a every front end starts processing only after, and with the Ok payload of, parse_initial_status; R16b the opening-position map is only queried with '
-            'get(&current security), whose result goes to that security\'s bookkeeping call; R16c the key is the symbol as given; R16d the looked-up position is handed on unfiltered; R16e exactly three fields. ' + PARTIAL % 'C16'),
+            'get(&current security), whose result goes to that security\'s bookkeeping call; R16c the key is the symbol as given; R16d the looked-up position is handed on unfiltered; R16e exactly three fields; R16f the status store installs a given opening position on every path. ' + PARTIAL % 'C16'),
     'C17': ('other', 'key provenance, loop must-pass-through, operator census and comparison normalisation over the cost tracker',
             'R17a days keyed by Tx.settlement_date and the observed figure is post_status.total_acb; R17b only the default non-registered affiliate counts and every '
             'skipped transaction is listed as ignored; R17c same-day observations combine by max and the row total is updated as total - old + new; R17d a day is filed '
